@@ -696,13 +696,13 @@ func (e *signersEnv) exec(line string) (res string) {
 
 // ---- generators ----------------------------------------------------------------------
 
-type sgParty struct {
+type signersGParty struct {
 	addr string
 	role int
 	opt  bool
 }
 
-func (p sgParty) String() string {
+func (p signersGParty) String() string {
 	o := "r"
 	if p.opt {
 		o = "o"
@@ -710,7 +710,7 @@ func (p sgParty) String() string {
 	return fmt.Sprintf("%s:%d:%s", p.addr, p.role, o)
 }
 
-func sgParties(ps []sgParty) string {
+func signersGParties(ps []signersGParty) string {
 	s := make([]string, len(ps))
 	for i, p := range ps {
 		s[i] = p.String()
@@ -718,7 +718,7 @@ func sgParties(ps []sgParty) string {
 	return JoinOr(s, "|")
 }
 
-func sgRoles(rs []int) string {
+func signersGRoles(rs []int) string {
 	s := make([]string, len(rs))
 	for i, r := range rs {
 		s[i] = strconv.Itoa(r)
@@ -727,21 +727,21 @@ func sgRoles(rs []int) string {
 }
 
 var (
-	sgNormal   = []string{"A", "B", "C", "D"}
-	sgWasm     = []string{"W", "V"}
-	sgRolePool = []int{5, 2, 1}
+	signersGNormal   = []string{"A", "B", "C", "D"}
+	signersGWasm     = []string{"W", "V"}
+	signersGRolePool = []int{5, 2, 1}
 )
 
-const sgProv = 8
+const signersGProv = 8
 
-var sgParent = map[string]string{
+var signersGParent = map[string]string{
 	"AddScopeDataAccess": "WriteScope", "DeleteScopeDataAccess": "WriteScope", "AddScopeOwner": "WriteScope",
 	"DeleteScopeOwner": "WriteScope", "WriteRecord": "WriteSession", "AddContractSpecToScopeSpec": "WriteScopeSpecification",
 	"DeleteContractSpecFromScopeSpec": "WriteScopeSpecification", "WriteRecordSpecification": "WriteContractSpecification",
 	"DeleteRecordSpecification": "DeleteContractSpecification",
 }
 
-type sgGen struct {
+type signersGGen struct {
 	r       *RNG
 	e       *signersEnv
 	signers []string
@@ -749,16 +749,16 @@ type sgGen struct {
 	mt      string
 }
 
-func isWasmName(a string) bool { return a == "W" || a == "V" }
+func signersIsWasmName(a string) bool { return a == "W" || a == "V" }
 
 // address: mostly ordinary accounts, some smart contracts, rarely the odd ones.
-func (g *sgGen) addr(special bool) string {
+func (g *signersGGen) addr(special bool) string {
 	x := g.r.Intn(100)
 	switch {
 	case x < 78:
-		return Pick(g.r, sgNormal)
+		return Pick(g.r, signersGNormal)
 	case x < 93:
-		return Pick(g.r, sgWasm)
+		return Pick(g.r, signersGWasm)
 	case x < 96 || !special:
 		return "N"
 	case x < 98:
@@ -768,25 +768,25 @@ func (g *sgGen) addr(special bool) string {
 	}
 }
 
-func (g *sgGen) roleFor(a string) int {
-	if isWasmName(a) {
+func (g *signersGGen) roleFor(a string) int {
+	if signersIsWasmName(a) {
 		if g.r.Chance(88) {
-			return sgProv
+			return signersGProv
 		}
-		return Pick(g.r, sgRolePool)
+		return Pick(g.r, signersGRolePool)
 	}
 	if g.r.Chance(4) {
-		return sgProv
+		return signersGProv
 	}
-	return Pick(g.r, sgRolePool)
+	return Pick(g.r, signersGRolePool)
 }
 
-func (g *sgGen) party(special, optAllowed bool) sgParty {
+func (g *signersGGen) party(special, optAllowed bool) signersGParty {
 	a := g.addr(special)
-	return sgParty{addr: a, role: g.roleFor(a), opt: optAllowed && g.r.Bool()}
+	return signersGParty{addr: a, role: g.roleFor(a), opt: optAllowed && g.r.Bool()}
 }
 
-func sgHas(ps []sgParty, p sgParty) bool {
+func signersGHas(ps []signersGParty, p signersGParty) bool {
 	for _, q := range ps {
 		if q.addr == p.addr && q.role == p.role {
 			return true
@@ -796,11 +796,11 @@ func sgHas(ps []sgParty, p sgParty) bool {
 }
 
 // parties: n entries; unique by (address, role) when unique is set.
-func (g *sgGen) parties(n int, special, optAllowed, unique bool) []sgParty {
-	var ps []sgParty
+func (g *signersGGen) parties(n int, special, optAllowed, unique bool) []signersGParty {
+	var ps []signersGParty
 	for tries := 0; len(ps) < n && tries < 40; tries++ {
 		p := g.party(special, optAllowed)
-		if unique && sgHas(ps, p) {
+		if unique && signersGHas(ps, p) {
 			continue
 		}
 		ps = append(ps, p)
@@ -808,22 +808,22 @@ func (g *sgGen) parties(n int, special, optAllowed, unique bool) []sgParty {
 	return ps
 }
 
-func (g *sgGen) roles(from []sgParty, max int) []int {
+func (g *signersGGen) roles(from []signersGParty, max int) []int {
 	n := g.r.Intn(max + 1)
 	var rs []int
 	for i := 0; i < n; i++ {
 		if len(from) > 0 && g.r.Chance(82) {
 			rs = append(rs, Pick(g.r, from).role)
 		} else if g.r.Chance(15) {
-			rs = append(rs, sgProv)
+			rs = append(rs, signersGProv)
 		} else {
-			rs = append(rs, Pick(g.r, sgRolePool))
+			rs = append(rs, Pick(g.r, signersGRolePool))
 		}
 	}
 	return rs
 }
 
-func sgContains(xs []string, x string) bool {
+func signersGContains(xs []string, x string) bool {
 	for _, y := range xs {
 		if y == x {
 			return true
@@ -832,10 +832,10 @@ func sgContains(xs []string, x string) bool {
 	return false
 }
 
-func (g *sgGen) grantType() string {
+func (g *signersGGen) grantType() string {
 	x := g.r.Intn(100)
 	t := Pick(g.r, g.e.msgNames)
-	if p, ok := sgParent[g.mt]; ok && x < 35 {
+	if p, ok := signersGParent[g.mt]; ok && x < 35 {
 		t = p
 	} else if x < 88 {
 		t = g.mt
@@ -850,22 +850,22 @@ func (g *sgGen) grantType() string {
 	return t
 }
 
-func sgValidName(a string) bool { return a != "X" && a != "E" }
+func signersGValidName(a string) bool { return a != "X" && a != "E" }
 
 // cover makes the address a signer (mostly) or gives one of the signers a grant from it.
-func (g *sgGen) cover(a string) {
-	if sgContains(g.signers, a) {
+func (g *signersGGen) cover(a string) {
+	if signersGContains(g.signers, a) {
 		return
 	}
-	if sgValidName(a) && g.r.Chance(30) {
+	if signersGValidName(a) && g.r.Chance(30) {
 		var cands []string
 		for _, s := range g.signers {
-			if sgValidName(s) && s != a {
+			if signersGValidName(s) && s != a {
 				cands = append(cands, s)
 			}
 		}
 		if len(cands) == 0 {
-			n := Pick(g.r, sgNormal)
+			n := Pick(g.r, signersGNormal)
 			if n != a {
 				g.signers = append(g.signers, n)
 				cands = []string{n}
@@ -881,7 +881,7 @@ func (g *sgGen) cover(a string) {
 
 // signersFor builds signers+grants: random noise, then (mostly) covers the parties that must
 // sign and one party per required role; smart contracts are moved to the front (mostly).
-func (g *sgGen) signersFor(must []sgParty, avail []sgParty, roles []int, mention []string) {
+func (g *signersGGen) signersFor(must []signersGParty, avail []signersGParty, roles []int, mention []string) {
 	g.signers, g.grants = nil, nil
 	for i, n := 0, g.r.Intn(3); i < n; i++ {
 		var a string
@@ -890,7 +890,7 @@ func (g *sgGen) signersFor(must []sgParty, avail []sgParty, roles []int, mention
 		} else {
 			a = g.addr(true)
 		}
-		if !sgContains(g.signers, a) || g.r.Chance(5) {
+		if !signersGContains(g.signers, a) || g.r.Chance(5) {
 			g.signers = append(g.signers, a)
 		}
 	}
@@ -920,7 +920,7 @@ func (g *sgGen) signersFor(must []sgParty, avail []sgParty, roles []int, mention
 		// prefer one that is already a signer
 		pick := -1
 		for _, i := range idx {
-			if sgContains(g.signers, avail[i].addr) {
+			if signersGContains(g.signers, avail[i].addr) {
 				pick = i
 				break
 			}
@@ -940,7 +940,7 @@ func (g *sgGen) signersFor(must []sgParty, avail []sgParty, roles []int, mention
 		if len(g.signers) > 0 && g.r.Chance(80) {
 			grantee = Pick(g.r, g.signers)
 		}
-		if granter != grantee && sgValidName(granter) && sgValidName(grantee) {
+		if granter != grantee && signersGValidName(granter) && signersGValidName(grantee) {
 			g.grants = append(g.grants, granter+">"+grantee+":"+g.grantType())
 		}
 	}
@@ -950,12 +950,12 @@ func (g *sgGen) signersFor(must []sgParty, avail []sgParty, roles []int, mention
 		g.signers[i], g.signers[j] = g.signers[j], g.signers[i]
 	}
 	if g.r.Chance(85) {
-		sort.SliceStable(g.signers, func(i, j int) bool { return isWasmName(g.signers[i]) && !isWasmName(g.signers[j]) })
+		sort.SliceStable(g.signers, func(i, j int) bool { return signersIsWasmName(g.signers[i]) && !signersIsWasmName(g.signers[j]) })
 	}
 	// a smart contract that signs with others after it: those often authorize it
-	if len(g.signers) > 1 && isWasmName(g.signers[0]) && g.r.Chance(50) {
+	if len(g.signers) > 1 && signersIsWasmName(g.signers[0]) && g.r.Chance(50) {
 		for _, s := range g.signers[1:] {
-			if sgValidName(s) && s != g.signers[0] && g.r.Chance(85) {
+			if signersGValidName(s) && s != g.signers[0] && g.r.Chance(85) {
 				g.grants = append(g.grants, s+">"+g.signers[0]+":"+g.grantType())
 			}
 		}
@@ -976,15 +976,15 @@ func (g *sgGen) signersFor(must []sgParty, avail []sgParty, roles []int, mention
 	g.grants = gs
 }
 
-func (g *sgGen) tail() string {
+func (g *signersGGen) tail() string {
 	return " signers=" + JoinOr(g.signers, "|") + " grants=" + JoinOr(g.grants, "|")
 }
 
-func sgAddrsOf(ps ...[]sgParty) []string {
+func signersGAddrsOf(ps ...[]signersGParty) []string {
 	var out []string
 	for _, l := range ps {
 		for _, p := range l {
-			if !sgContains(out, p.addr) {
+			if !signersGContains(out, p.addr) {
 				out = append(out, p.addr)
 			}
 		}
@@ -992,8 +992,8 @@ func sgAddrsOf(ps ...[]sgParty) []string {
 	return out
 }
 
-func sgAllRequired(ps []sgParty) []sgParty {
-	out := make([]sgParty, len(ps))
+func signersGAllRequired(ps []signersGParty) []signersGParty {
+	out := make([]signersGParty, len(ps))
 	for i, p := range ps {
 		p.opt = false
 		out[i] = p
@@ -1001,7 +1001,7 @@ func sgAllRequired(ps []sgParty) []sgParty {
 	return out
 }
 
-func (g *sgGen) genWP() string {
+func (g *signersGGen) genWP() string {
 	g.mt = Pick(g.r, g.e.msgNames)
 	if g.r.Chance(50) {
 		g.mt = Pick(g.r, []string{"WriteScope", "WriteSession", "WriteRecord", "DeleteRecord", "AddScopeDataAccess", "DeleteScopeOwner"})
@@ -1011,7 +1011,7 @@ func (g *sgGen) genWP() string {
 		nA = 4 + g.r.Intn(2)
 	}
 	avail := g.parties(nA, true, true, g.r.Chance(90))
-	var req []sgParty
+	var req []signersGParty
 	switch x := g.r.Intn(100); {
 	case x < 45:
 		req = append(req, avail...)
@@ -1032,38 +1032,38 @@ func (g *sgGen) genWP() string {
 		req = append(req, avail...)
 	}
 	roles := g.roles(avail, 3)
-	g.signersFor(req, avail, roles, sgAddrsOf(req, avail))
-	return fmt.Sprintf("wp mt=%s req=%s avail=%s roles=%s", g.mt, sgParties(req), sgParties(avail), sgRoles(roles)) + g.tail()
+	g.signersFor(req, avail, roles, signersGAddrsOf(req, avail))
+	return fmt.Sprintf("wp mt=%s req=%s avail=%s roles=%s", g.mt, signersGParties(req), signersGParties(avail), signersGRoles(roles)) + g.tail()
 }
 
-func (g *sgGen) genWO() string {
+func (g *signersGGen) genWO() string {
 	g.mt = Pick(g.r, g.e.msgNames)
 	var required []string
 	for i, n := 0, g.r.Intn(4); i < n; i++ {
 		required = append(required, g.addr(true))
 	}
-	var must []sgParty
+	var must []signersGParty
 	for _, a := range required {
-		must = append(must, sgParty{addr: a})
+		must = append(must, signersGParty{addr: a})
 	}
 	g.signersFor(must, nil, nil, required)
 	return fmt.Sprintf("wo mt=%s required=%s", g.mt, JoinOr(required, "|")) + g.tail()
 }
 
-func (g *sgGen) owners(rollup bool) []sgParty {
+func (g *signersGGen) owners(rollup bool) []signersGParty {
 	return g.parties(1+g.r.Intn(3), false, rollup, true)
 }
 
-func sgScope(rollup bool, other int, owners []sgParty) string {
+func signersGScope(rollup bool, other int, owners []signersGParty) string {
 	r := "0"
 	if rollup {
 		r = "1"
 	}
-	return fmt.Sprintf("%s/%d/%s", r, other, sgParties(owners))
+	return fmt.Sprintf("%s/%d/%s", r, other, signersGParties(owners))
 }
 
-func (g *sgGen) subset(ps []sgParty, keepPct int) []sgParty {
-	var out []sgParty
+func (g *signersGGen) subset(ps []signersGParty, keepPct int) []signersGParty {
+	var out []signersGParty
 	for _, p := range ps {
 		if g.r.Chance(keepPct) {
 			out = append(out, p)
@@ -1072,13 +1072,13 @@ func (g *sgGen) subset(ps []sgParty, keepPct int) []sgParty {
 	return out
 }
 
-func (g *sgGen) genCaller() string {
+func (g *signersGGen) genCaller() string {
 	rollup := g.r.Chance(60)
 	owners := g.owners(rollup)
 	other := g.r.Intn(3)
 	mustOwners := owners
 	if !rollup {
-		mustOwners = sgAllRequired(owners)
+		mustOwners = signersGAllRequired(owners)
 	}
 	switch x := g.r.Intn(100); {
 	case x < 14: // wscope
@@ -1086,14 +1086,14 @@ func (g *sgGen) genCaller() string {
 		var roles []int
 		existing := "none"
 		propRollup, propOther, propOwners := rollup, other, owners
-		var must, avail []sgParty
+		var must, avail []signersGParty
 		if g.r.Chance(75) {
-			existing = sgScope(rollup, other, owners)
+			existing = signersGScope(rollup, other, owners)
 			must, avail = mustOwners, owners
 			switch y := g.r.Intn(100); {
 			case y < 25: // unchanged (Scope.Equals ignores the order of the owners)
 				if g.r.Bool() && len(owners) > 1 {
-					propOwners = append([]sgParty{}, owners...)
+					propOwners = append([]signersGParty{}, owners...)
 					for i, j := 0, len(propOwners)-1; i < j; i, j = i+1, j-1 {
 						propOwners[i], propOwners[j] = propOwners[j], propOwners[i]
 					}
@@ -1103,10 +1103,10 @@ func (g *sgGen) genCaller() string {
 			case y < 85:
 				propOwners = g.parties(1+g.r.Intn(3), false, rollup, true)
 				if g.r.Chance(50) {
-					propOwners = append(append([]sgParty{}, owners...), propOwners...)
-					var uniq []sgParty
+					propOwners = append(append([]signersGParty{}, owners...), propOwners...)
+					var uniq []signersGParty
 					for _, p := range propOwners {
-						if !sgHas(uniq, p) {
+						if !signersGHas(uniq, p) {
 							uniq = append(uniq, p)
 						}
 					}
@@ -1115,7 +1115,7 @@ func (g *sgGen) genCaller() string {
 			default:
 				propRollup = !rollup
 				if !propRollup {
-					propOwners = sgAllRequired(owners)
+					propOwners = signersGAllRequired(owners)
 				}
 			}
 		}
@@ -1135,17 +1135,26 @@ func (g *sgGen) genCaller() string {
 			if len(nr) == 0 { // a scope specification names at least one role
 				nr = []int{propOwners[0].role}
 			}
-			newRoles = " newroles=" + sgRoles(nr)
+			// the stored scope fits its own specification
+			roles = nil
+			for _, p := range g.subset(owners, 60) {
+				roles = append(roles, p.role)
+			}
+			if len(roles) == 0 {
+				roles = []int{owners[0].role}
+			}
+			coverRoles = roles
+			newRoles = " newroles=" + signersGRoles(nr)
 			if g.r.Bool() {
 				coverRoles = nr
 			}
 		}
-		g.signersFor(must, avail, coverRoles, sgAddrsOf(owners, propOwners))
-		return fmt.Sprintf("wscope existing=%s proposed=%s roles=%s%s", existing, sgScope(propRollup, propOther, propOwners), sgRoles(roles), newRoles) + g.tail()
+		g.signersFor(must, avail, coverRoles, signersGAddrsOf(owners, propOwners))
+		return fmt.Sprintf("wscope existing=%s proposed=%s roles=%s%s", existing, signersGScope(propRollup, propOther, propOwners), signersGRoles(roles), newRoles) + g.tail()
 	case x < 24: // dscope
 		g.mt = "DeleteScope"
 		roles := g.roles(owners, 2)
-		rs := sgRoles(roles)
+		rs := signersGRoles(roles)
 		avail := owners
 		if g.r.Chance(20) {
 			rs, roles = "none", nil
@@ -1153,8 +1162,8 @@ func (g *sgGen) genCaller() string {
 		if !rollup {
 			avail = nil
 		}
-		g.signersFor(mustOwners, avail, roles, sgAddrsOf(owners))
-		return fmt.Sprintf("dscope scope=%s roles=%s", sgScope(rollup, other, owners), rs) + g.tail()
+		g.signersFor(mustOwners, avail, roles, signersGAddrsOf(owners))
+		return fmt.Sprintf("dscope scope=%s roles=%s", signersGScope(rollup, other, owners), rs) + g.tail()
 	case x < 33: // upd
 		g.mt = "AddScopeDataAccess"
 		if g.r.Bool() {
@@ -1168,14 +1177,14 @@ func (g *sgGen) genCaller() string {
 		if !rollup {
 			avail = nil
 		}
-		g.signersFor(mustOwners, avail, roles, sgAddrsOf(owners))
-		return fmt.Sprintf("upd mt=%s scope=%s roles=%s", g.mt, sgScope(rollup, other, owners), sgRoles(roles)) + g.tail()
+		g.signersFor(mustOwners, avail, roles, signersGAddrsOf(owners))
+		return fmt.Sprintf("upd mt=%s scope=%s roles=%s", g.mt, signersGScope(rollup, other, owners), signersGRoles(roles)) + g.tail()
 	case x < 42: // owners
 		g.mt = Pick(g.r, []string{"AddScopeOwner", "DeleteScopeOwner"})
 		proposed := g.parties(1+g.r.Intn(3), false, rollup || g.r.Chance(6), true)
 		if g.r.Chance(60) {
 			for _, p := range owners {
-				if !sgHas(proposed, p) && g.r.Chance(80) {
+				if !signersGHas(proposed, p) && g.r.Chance(80) {
 					proposed = append(proposed, p)
 				}
 			}
@@ -1185,11 +1194,11 @@ func (g *sgGen) genCaller() string {
 		if !rollup {
 			avail = nil
 		}
-		g.signersFor(mustOwners, avail, roles, sgAddrsOf(owners, proposed))
-		return fmt.Sprintf("owners mt=%s scope=%s proposed=%s roles=%s", g.mt, sgScope(rollup, other, owners), sgParties(proposed), sgRoles(roles)) + g.tail()
+		g.signersFor(mustOwners, avail, roles, signersGAddrsOf(owners, proposed))
+		return fmt.Sprintf("owners mt=%s scope=%s proposed=%s roles=%s", g.mt, signersGScope(rollup, other, owners), signersGParties(proposed), signersGRoles(roles)) + g.tail()
 	case x < 64: // wsession
 		g.mt = "WriteSession"
-		var proposed []sgParty
+		var proposed []signersGParty
 		if rollup {
 			proposed = g.subset(owners, 70)
 			for i := range proposed {
@@ -1199,7 +1208,7 @@ func (g *sgGen) genCaller() string {
 			}
 			if len(proposed) == 0 || g.r.Chance(8) {
 				p := g.party(false, true)
-				if !sgHas(proposed, p) {
+				if !signersGHas(proposed, p) {
 					proposed = append(proposed, p)
 				}
 			}
@@ -1207,7 +1216,7 @@ func (g *sgGen) genCaller() string {
 			proposed = g.parties(1+g.r.Intn(3), false, g.r.Chance(6), true)
 		}
 		existing := "none"
-		var ex []sgParty
+		var ex []signersGParty
 		if g.r.Chance(50) {
 			if rollup {
 				ex = g.subset(owners, 70)
@@ -1222,29 +1231,29 @@ func (g *sgGen) genCaller() string {
 			} else {
 				ex = g.parties(1+g.r.Intn(2), false, false, true)
 			}
-			existing = sgParties(ex)
+			existing = signersGParties(ex)
 		}
-		var must, avail []sgParty
+		var must, avail []signersGParty
 		var roles []int
 		switch {
 		case !rollup:
 			must = mustOwners
 			roles = g.roles(proposed, 2)
-			g.signersFor(must, nil, nil, sgAddrsOf(owners, proposed))
+			g.signersFor(must, nil, nil, signersGAddrsOf(owners, proposed))
 		case existing != "none":
-			must = append(append([]sgParty{}, ex...), owners...)
+			must = append(append([]signersGParty{}, ex...), owners...)
 			avail = ex
 			roles = g.roles(ex, 3)
-			g.signersFor(must, avail, roles, sgAddrsOf(owners, proposed, ex))
+			g.signersFor(must, avail, roles, signersGAddrsOf(owners, proposed, ex))
 		default:
 			must, avail = owners, proposed
 			roles = g.roles(proposed, 3)
-			g.signersFor(must, avail, roles, sgAddrsOf(owners, proposed))
+			g.signersFor(must, avail, roles, signersGAddrsOf(owners, proposed))
 		}
-		return fmt.Sprintf("wsession scope=%s existing=%s proposed=%s roles=%s", sgScope(rollup, other, owners), existing, sgParties(proposed), sgRoles(roles)) + g.tail()
+		return fmt.Sprintf("wsession scope=%s existing=%s proposed=%s roles=%s", signersGScope(rollup, other, owners), existing, signersGParties(proposed), signersGRoles(roles)) + g.tail()
 	case x < 88: // wrecord
 		g.mt = "WriteRecord"
-		var session []sgParty
+		var session []signersGParty
 		if rollup {
 			session = g.subset(owners, 70)
 			if len(session) == 0 {
@@ -1259,7 +1268,7 @@ func (g *sgGen) genCaller() string {
 			session = g.parties(1+g.r.Intn(3), false, false, true)
 		}
 		old := "none"
-		var oldP []sgParty
+		var oldP []signersGParty
 		switch y := g.r.Intn(100); {
 		case y < 35:
 		case y < 45:
@@ -1275,22 +1284,22 @@ func (g *sgGen) genCaller() string {
 			} else {
 				oldP = g.parties(1+g.r.Intn(2), false, false, true)
 			}
-			old = sgParties(oldP)
+			old = signersGParties(oldP)
 		}
 		roles := g.roles(session, 3)
-		var must []sgParty
+		var must []signersGParty
 		if rollup {
-			must = append(append(append([]sgParty{}, owners...), session...), oldP...)
-			g.signersFor(must, session, roles, sgAddrsOf(owners, session, oldP))
+			must = append(append(append([]signersGParty{}, owners...), session...), oldP...)
+			g.signersFor(must, session, roles, signersGAddrsOf(owners, session, oldP))
 		} else {
-			must = append(sgAllRequired(session), sgAllRequired(oldP)...)
-			g.signersFor(must, nil, nil, sgAddrsOf(session, oldP))
+			must = append(signersGAllRequired(session), signersGAllRequired(oldP)...)
+			g.signersFor(must, nil, nil, signersGAddrsOf(session, oldP))
 		}
-		return fmt.Sprintf("wrecord scope=%s session=%s old=%s roles=%s", sgScope(rollup, other, owners), sgParties(session), old, sgRoles(roles)) + g.tail()
+		return fmt.Sprintf("wrecord scope=%s session=%s old=%s roles=%s", signersGScope(rollup, other, owners), signersGParties(session), old, signersGRoles(roles)) + g.tail()
 	default: // drecord
 		g.mt = "DeleteRecord"
 		roles := g.roles(owners, 3)
-		rs := sgRoles(roles)
+		rs := signersGRoles(roles)
 		avail := owners
 		if g.r.Chance(20) {
 			rs, roles = "none", nil
@@ -1298,11 +1307,11 @@ func (g *sgGen) genCaller() string {
 		if !rollup {
 			avail = nil
 		}
-		sc := sgScope(rollup, other, owners)
+		sc := signersGScope(rollup, other, owners)
 		if g.r.Chance(8) {
 			sc = "none"
 		}
-		g.signersFor(mustOwners, avail, roles, sgAddrsOf(owners))
+		g.signersFor(mustOwners, avail, roles, signersGAddrsOf(owners))
 		return fmt.Sprintf("drecord scope=%s roles=%s", sc, rs) + g.tail()
 	}
 }
@@ -1312,34 +1321,34 @@ func (g *sgGen) genCaller() string {
 // avail: lists of ≤ 2 parties over {A,B,C} × {OWNER,SERVICER} × {optional, required};
 // req: = avail | avail + one more party | nothing;  required roles: lists of ≤ 3 over the two
 // roles (repeats); signers: every subset of {A,B,C} in ascending order plus two permuted
-// orders; grants (type = the message type): every set of ≤ 2 of the 6 ordered pairs.
+// orders; grants (type = the message type): every subset of the 6 ordered pairs.
 
-var sgExP = func() []sgParty {
-	var ps []sgParty
+var signersGExP = func() []signersGParty {
+	var ps []signersGParty
 	for _, a := range []string{"A", "B", "C"} {
 		for _, r := range []int{5, 2} {
 			for _, o := range []bool{true, false} {
-				ps = append(ps, sgParty{a, r, o})
+				ps = append(ps, signersGParty{a, r, o})
 			}
 		}
 	}
 	return ps
 }()
 
-var sgExAvail = func() [][]sgParty {
-	out := [][]sgParty{nil}
-	for _, p := range sgExP {
-		out = append(out, []sgParty{p})
+var signersGExAvail = func() [][]signersGParty {
+	out := [][]signersGParty{nil}
+	for _, p := range signersGExP {
+		out = append(out, []signersGParty{p})
 	}
-	for _, p := range sgExP {
-		for _, q := range sgExP {
-			out = append(out, []sgParty{p, q})
+	for _, p := range signersGExP {
+		for _, q := range signersGExP {
+			out = append(out, []signersGParty{p, q})
 		}
 	}
 	return out
 }()
 
-var sgExRoles = func() [][]int {
+var signersGExRoles = func() [][]int {
 	out := [][]int{nil}
 	rs := []int{5, 2}
 	for _, a := range rs {
@@ -1360,9 +1369,9 @@ var sgExRoles = func() [][]int {
 	return out
 }()
 
-var sgExSigners = [][]string{nil, {"A"}, {"B"}, {"C"}, {"A", "B"}, {"A", "C"}, {"B", "C"}, {"A", "B", "C"}, {"B", "A"}, {"C", "B", "A"}}
+var signersGExSigners = [][]string{nil, {"A"}, {"B"}, {"C"}, {"A", "B"}, {"A", "C"}, {"B", "C"}, {"A", "B", "C"}, {"B", "A"}, {"C", "B", "A"}}
 
-var sgExGrants = func() [][]string {
+var signersGExGrants = func() [][]string {
 	var pairs []string
 	for _, a := range []string{"A", "B", "C"} {
 		for _, b := range []string{"A", "B", "C"} {
@@ -1371,48 +1380,49 @@ var sgExGrants = func() [][]string {
 			}
 		}
 	}
-	out := [][]string{nil}
-	for _, p := range pairs {
-		out = append(out, []string{p})
-	}
-	for i := range pairs {
-		for j := i + 1; j < len(pairs); j++ {
-			out = append(out, []string{pairs[i], pairs[j]})
+	var out [][]string
+	for mask := 0; mask < 1<<len(pairs); mask++ {
+		var gs []string
+		for i, p := range pairs {
+			if mask&(1<<i) != 0 {
+				gs = append(gs, p)
+			}
 		}
+		out = append(out, gs)
 	}
 	return out
 }()
 
-// req modes: 0 = avail, 1 = none, 2.. = avail + sgExP[m-2]
-func sgExTotal() uint64 {
-	return uint64(len(sgExAvail)) * uint64(2+len(sgExP)) * uint64(len(sgExRoles)) * uint64(len(sgExSigners)) * uint64(len(sgExGrants))
+// req modes: 0 = avail, 1 = none, 2.. = avail + signersGExP[m-2]
+func signersGExTotal() uint64 {
+	return uint64(len(signersGExAvail)) * uint64(2+len(signersGExP)) * uint64(len(signersGExRoles)) * uint64(len(signersGExSigners)) * uint64(len(signersGExGrants))
 }
 
-func sgExhaustive(idx uint64) string {
+func signersGExhaustive(idx uint64) string {
 	take := func(n int) int {
 		d := int(idx % uint64(n))
 		idx /= uint64(n)
 		return d
 	}
-	grants := sgExGrants[take(len(sgExGrants))]
-	signers := sgExSigners[take(len(sgExSigners))]
-	roles := sgExRoles[take(len(sgExRoles))]
-	mode := take(2 + len(sgExP))
-	avail := sgExAvail[take(len(sgExAvail))]
-	var req []sgParty
+	grants := signersGExGrants[take(len(signersGExGrants))]
+	signers := signersGExSigners[take(len(signersGExSigners))]
+	roles := signersGExRoles[take(len(signersGExRoles))]
+	mode := take(2 + len(signersGExP))
+	avail := signersGExAvail[take(len(signersGExAvail))]
+	var req []signersGParty
 	switch {
 	case mode == 0:
 		req = avail
 	case mode == 1:
 	default:
-		req = append(append([]sgParty{}, avail...), sgExP[mode-2])
+		req = append(append([]signersGParty{}, avail...), signersGExP[mode-2])
 	}
 	gs := make([]string, len(grants))
 	for i, g := range grants {
 		gs[i] = g + ":WriteScope"
 	}
 	return fmt.Sprintf("wp mt=WriteScope req=%s avail=%s roles=%s signers=%s grants=%s",
-		sgParties(req), sgParties(avail), sgRoles(roles), JoinOr(signers, "|"), JoinOr(gs, "|"))
+		signersGParties(req), signersGParties(avail), signersGRoles(roles), JoinOr(signers, "|"), JoinOr(gs, "|"))
 }
 
 // ---- the exhaustive small universe for the smart-contract rules ----------------------------
@@ -1422,7 +1432,7 @@ func sgExhaustive(idx uint64) string {
 // not, next to an ordinary owner); required roles: none, PROVENANCE, OWNER; grants: every
 // subset of the 6 pairs granter ∈ {A,B,V,W} → grantee ∈ {W,V}.
 
-var sgScSigners = func() [][]string {
+var signersGScSigners = func() [][]string {
 	names := []string{"W", "V", "A", "B"}
 	out := [][]string{nil}
 	for _, a := range names {
@@ -1443,38 +1453,38 @@ var sgScSigners = func() [][]string {
 	return out
 }()
 
-var sgScParties = [][]sgParty{
+var signersGScParties = [][]signersGParty{
 	nil,
 	{{"W", 8, false}}, {{"W", 8, true}}, {{"W", 5, false}}, {{"A", 8, false}}, {{"A", 5, false}}, {{"A", 5, true}},
 	{{"W", 8, false}, {"A", 5, false}}, {{"W", 8, true}, {"A", 5, true}}, {{"A", 5, false}, {"V", 8, true}},
 }
 
-var sgScRoles = [][]int{nil, {8}, {5}}
+var signersGScRoles = [][]int{nil, {8}, {5}}
 
-var sgScPairs = []string{"A>W", "B>W", "V>W", "A>V", "B>V", "W>V"}
+var signersGScPairs = []string{"A>W", "B>W", "V>W", "A>V", "B>V", "W>V"}
 
-func sgScTotal() uint64 {
-	return uint64(len(sgScSigners)) * uint64(len(sgScParties)) * uint64(len(sgScRoles)) * 64
+func signersGScTotal() uint64 {
+	return uint64(len(signersGScSigners)) * uint64(len(signersGScParties)) * uint64(len(signersGScRoles)) * 64
 }
 
-func sgScExhaustive(idx uint64) string {
+func signersGScExhaustive(idx uint64) string {
 	take := func(n int) int {
 		d := int(idx % uint64(n))
 		idx /= uint64(n)
 		return d
 	}
 	gmask := take(64)
-	signers := sgScSigners[take(len(sgScSigners))]
-	roles := sgScRoles[take(len(sgScRoles))]
-	ps := sgScParties[take(len(sgScParties))]
+	signers := signersGScSigners[take(len(signersGScSigners))]
+	roles := signersGScRoles[take(len(signersGScRoles))]
+	ps := signersGScParties[take(len(signersGScParties))]
 	var gs []string
-	for i, p := range sgScPairs {
+	for i, p := range signersGScPairs {
 		if gmask&(1<<i) != 0 {
 			gs = append(gs, p+":WriteScope")
 		}
 	}
 	return fmt.Sprintf("wp mt=WriteScope req=%s avail=%s roles=%s signers=%s grants=%s",
-		sgParties(ps), sgParties(ps), sgRoles(roles), JoinOr(signers, "|"), JoinOr(gs, "|"))
+		signersGParties(ps), signersGParties(ps), signersGRoles(roles), JoinOr(signers, "|"), JoinOr(gs, "|"))
 }
 
 // ---- driver / replayer ---------------------------------------------------------------
@@ -1515,36 +1525,36 @@ func (e *signersEnv) runShared(line string, out *Out) {
 
 func driveSigners(t *testing.T, rng *RNG, n int, out *Out) {
 	e := signersSetup(t)
-	g := &sgGen{r: rng, e: e}
+	g := &signersGGen{r: rng, e: e}
 	shards := uint64(*flagSignersShards)
 	shard := *flagSeed % 1000
-	total := sgExTotal()
+	total := signersGExTotal()
 	if *flagTier == "thorough" {
 		// the whole small universe, split over the shards by residue class; the grant set is
 		// the outer loop so that one context (with those grants stored in the real authz
 		// keeper) serves all the other coordinates
-		nG := uint64(len(sgExGrants))
+		nG := uint64(len(signersGExGrants))
 		rest := total / nG
 		for gi := uint64(0); gi < nG; gi++ {
 			e.shared = nil
 			for r := shard; r < rest; r += shards {
-				e.runShared(sgExhaustive(r*nG+gi), out)
+				e.runShared(signersGExhaustive(r*nG+gi), out)
 			}
 		}
 		e.shared = nil
 		for gm := uint64(0); gm < 64; gm++ {
-			for r := shard; r < sgScTotal()/64; r += shards {
-				e.runShared(sgScExhaustive(r*64+gm), out)
+			for r := shard; r < signersGScTotal()/64; r += shards {
+				e.runShared(signersGScExhaustive(r*64+gm), out)
 			}
 		}
 		e.shared = nil
 	} else {
 		// quick: a sample of the small universes (uniform in every coordinate)
 		for i := 0; i < n/3; i++ {
-			e.run(sgExhaustive(rng.U64()%total), out)
+			e.run(signersGExhaustive(rng.U64()%total), out)
 		}
 		for i := 0; i < n/6; i++ {
-			e.run(sgScExhaustive(rng.U64()%sgScTotal()), out)
+			e.run(signersGScExhaustive(rng.U64()%signersGScTotal()), out)
 		}
 	}
 	for i := 0; i < n; i++ {
